@@ -67,6 +67,21 @@ class SimFile:
         return out
 
 
+class Growing:
+    def __init__(self, data, margin):
+        self.data = bytes(data)
+        self.margin = max(16, margin)
+        self.buf = bytearray(self.data[:self.margin])
+        self.grown = 0
+
+    def ensure(self, upto):
+        """make at least data[:upto + margin] available"""
+        want = min(len(self.data), upto + self.margin)
+        if want > len(self.buf):
+            self.buf += self.data[len(self.buf):want]
+            self.grown += 1
+
+
 def make_source(kind, data, chunks=None, hook=None):
     """returns (iterable for the decoder, counter object or None)"""
     data = bytes(data)
@@ -89,6 +104,12 @@ def make_source(kind, data, chunks=None, hook=None):
     if kind == "counting":
         src = CountingSource(data, hook)
         return src, src
+    if kind == "growing":
+        # a live source: a bytearray the producer keeps appending to while the decoder is running.  The simulator keeps it
+        # a comfortable margin ahead of what the emitted fields account for (see Task._grow); a decoder that pulls byte by
+        # byte never reaches the current end before the input is complete, one that takes a snapshot does
+        g = Growing(data, (chunks or [64])[0])
+        return g.buf, g
     if kind == "simfile":
         from tpmstream.io import bytes_from_files
         # split the data over 1..n files at the points given by negative chunk entries
@@ -143,6 +164,7 @@ class Task:
         data = bytes.fromhex(spec["data"])
         self.n_input = len(data)
         buf, self.counter = make_source(spec.get("source", "bytes"), data, spec.get("chunks"), hook)
+        self._grow_i, self._grow_bytes, self._grow_ends = 0, 0, None
         self.root = spec.get("root_path") or ""      # caller-chosen root path; items and error summaries are relative to it
         self.decoder = real.marshal(spec.get("front", "binary"), spec["type"], buf,
                                     cc=self._cc(spec.get("cc")), enc=spec.get("enc"),
@@ -187,11 +209,31 @@ class Task:
                                  (self.counter.pos if isinstance(self.counter, SimFile) else None))
             yield e
 
+    def _grow(self):
+        """live source: append what the producer has delivered meanwhile (a margin beyond the fields emitted so far)"""
+        g = self.counter
+        from .tiling import width_and_bytes
+        while self._grow_i < len(self.items):
+            it = self.items[self._grow_i]
+            if it[0] == "P":
+                self._grow_bytes += width_and_bytes(it, self.events[self._grow_i])[0] or 0
+            self._grow_i += 1
+        if self.spec.get("front", "binary") == "binary":
+            g.ensure(self._grow_bytes)
+        else:
+            if self._grow_ends is None:
+                from . import medium
+                self._grow_ends = medium.ref_hex_pair_ends(g.data)
+            j = self._grow_bytes + 8
+            g.ensure(self._grow_ends[j] if j < len(self._grow_ends) else len(g.data))
+
     def step(self):
         """one next() on the top generator; returns False when the task is finished"""
         if self.done:
             return False
         self.steps += 1
+        if isinstance(self.counter, Growing):
+            self._grow()
         try:
             o = next(self.top)
             if self.top is not self.gen:
